@@ -171,7 +171,7 @@ def _cat() -> List[Edit]:
     # ------------------------------------------------------------------ C15
     c += [
         E("C15", "inherent-bounds-left-out", "value.py", "            bounds = [LowerBound(self.typevar, other), *self.get_inherent_bounds()]", "            bounds = [LowerBound(self.typevar, other)]", "BREAK", "TypeVarValue.can_assign::bounds"),
-        E("C15", "no-top-bottom-check", "typevar.py", "        can_assign = top.can_assign(bottom, ctx)\n        if isinstance(can_assign, CanAssignError):", "        can_assign = {}\n        if isinstance(can_assign, CanAssignError):", "BREAK", "top-accepts-bottom"),
+        E("C15", "no-top-bottom-check", "typevar.py", "            can_assign = upper.can_assign(bottom, ctx)\n", "            can_assign = {}\n", "BREAK", "solution-exceeds-an-upper-bound"),
         E("C15", "constrained-returns-solution", "typevar.py", "        # If there are still multiple options, we fall back to Any.\n        return AnyValue(AnySource.inference)", "        # If there are still multiple options, we fall back to Any.\n        return solution", "BREAK", "constrained-return"),
         E("C15", "errors-dropped", "typevar.py", "        if isinstance(solution, CanAssignError):\n            errors.append(solution)\n            solution = AnyValue(AnySource.error)", "        if isinstance(solution, CanAssignError):\n            solution = AnyValue(AnySource.error)", "BREAK", "resolve_bounds_map::collects"),
     ]
@@ -244,9 +244,13 @@ def _cat() -> List[Edit]:
         E("C13", "coro-wrap-only-annotated", "arg_spec.py", "                has_return_annotation = True\n            if is_async:\n                returns = make_coro_type(returns)", "                has_return_annotation = True\n                if is_async:\n                    returns = make_coro_type(returns)", "BREAK", "from_signature::coroutine-wrap"),
         E("C13", "def-route-wrap-only-annotated", "functions.py", "        if not visitor.is_generator:\n            result = make_coro_type(result)", "        if not visitor.is_generator and info.return_annotation is not None:\n            result = make_coro_type(result)", "BREAK", "compute_value_of_function::coroutine-wrap"),
         E("C13", "forwardref-cache-read", "annotations.py", "        with ctx.add_evaluation(val):\n", "        with ctx.add_evaluation(val):\n            if getattr(val, \"__forward_evaluated__\", False):\n                return _type_from_runtime(val.__forward_value__, ctx, is_typeddict=is_typeddict)\n", "BREAK", "reads-typing-forwardref-cache"),
-        E("C15", "upper-bound-skipped-on-bottom", "typevar.py", "        elif isinstance(bound, UpperBound):\n            if top is TOP or top.is_assignable(bound.value, ctx):", "        elif isinstance(bound, UpperBound):\n            if bottom is not BOTTOM and bound.value.is_assignable(bottom, ctx):\n                continue\n            if top is TOP or top.is_assignable(bound.value, ctx):", "BREAK", "UpperBound::unchanged-top"),
-        E("C15", "lower-bound-skipped-on-top", "typevar.py", "            if bottom is BOTTOM or bound.value.is_assignable(bottom, ctx):\n                # New bound is more specific. Adopt it.", "            if top is not TOP and top.is_assignable(bound.value, ctx):\n                continue\n            if bottom is BOTTOM or bound.value.is_assignable(bottom, ctx):\n                # New bound is more specific. Adopt it.", "BREAK", "LowerBound::unchanged-bottom"),
-        E("C15", "keep-upper-arm-nested-form", "typevar.py", "            elif bound.value.is_assignable(top, ctx):\n                pass\n            else:\n                top = unite_values(top, bound.value)", "            elif not bound.value.is_assignable(top, ctx):\n                top = unite_values(top, bound.value)", "KEEP"),
+        E("C15", "upper-bound-skipped-on-bottom", "typevar.py", "        elif isinstance(bound, UpperBound):\n            if top is TOP or top.is_assignable(bound.value, ctx):", "        elif isinstance(bound, UpperBound):\n            if bottom is not BOTTOM and bound.value.is_assignable(bottom, ctx):\n                continue\n            if top is TOP or top.is_assignable(bound.value, ctx):", "BREAK", "typevar::solve::model::"),
+        E("C15", "lower-bound-skipped-on-top", "typevar.py", "            if bottom is BOTTOM or bound.value.is_assignable(bottom, ctx):\n                # New bound is more specific. Adopt it.", "            if top is not TOP and top.is_assignable(bound.value, ctx):\n                continue\n            if bottom is BOTTOM or bound.value.is_assignable(bottom, ctx):\n                # New bound is more specific. Adopt it.", "BREAK", "solution-misses-a-lower-bound"),
+        E("C15", "keep-upper-arm-nested-form", "typevar.py", "            elif bound.value.is_assignable(top, ctx):\n                pass\n            else:\n                # Neither bound implies the other. We have to satisfy both.\n                extra_tops.append(bound.value)", "            elif not bound.value.is_assignable(top, ctx):\n                extra_tops.append(bound.value)", "KEEP"),
+        E("C15", "unrelated-uppers-united-again", "typevar.py", "                extra_tops.append(bound.value)\n", "                top = unite_values(top, bound.value)\n", "BREAK", "unrelated-upper-bounds"),
+        E("C15", "constraint-ignores-upper-bounds", "typevar.py", "        if top is not TOP:\n            # A constraint can only be chosen", "        if False:\n            # A constraint can only be chosen", "BREAK", "constraint-chosen-without-upper-check"),
+        E("C15", "lower-bounds-intersected-not-united", "typevar.py", "                bottom = unite_values(bottom, bound.value)", "                pass", "BREAK", "solution-misses-a-lower-bound"),
+        E("C15", "keep-rename-extra-tops", "typevar.py", "extra_tops", "unrelated_uppers", "KEEPALL"),
         E("C19", "index-range-abs", "implementation.py", "                        if -len(members) <= key.val < len(members):", "                        if abs(key.val) < len(members):", "BREAK", "in-range-test"),
         E("C19", "index-range-off-by-one-top", "implementation.py", "                        if -len(members) <= key.val < len(members):", "                        if -len(members) <= key.val <= len(members):", "BREAK", "in-range-test"),
         E("C19", "keep-index-range-split-form", "implementation.py", "                        if -len(members) <= key.val < len(members):", "                        if key.val < len(members) and key.val >= -len(members):", "KEEP"),
@@ -272,7 +276,7 @@ def _cat() -> List[Edit]:
         E("C19", "keep-table-row-order", "name_check_visitor.py", "    ast.Add: (\"addition\", \"__add__\", \"__iadd__\", \"__radd__\"),\n    ast.Sub: (\"subtraction\", \"__sub__\", \"__isub__\", \"__rsub__\"),", "    ast.Sub: (\"subtraction\", \"__sub__\", \"__isub__\", \"__rsub__\"),\n    ast.Add: (\"addition\", \"__add__\", \"__iadd__\", \"__radd__\"),", "KEEP"),
         E("C20", "keep-rename-position", "type_evaluation.py", "            if name == \"is_provided\":\n                match = position is not DEFAULT and position is not UNKNOWN\n            elif name == \"is_positional\":\n                match = position is ARGS or isinstance(position, int)\n            elif name == \"is_keyword\":\n                match = position is KWARGS or isinstance(position, str)", "            if name == \"is_provided\":\n                match = not (position is DEFAULT or position is UNKNOWN)\n            elif name == \"is_positional\":\n                match = isinstance(position, int) or position is ARGS\n            elif name == \"is_keyword\":\n                match = isinstance(position, str) or position is KWARGS", "KEEP"),
         E("C04", "noalarm-rename-bounds_maps", "value.py", "            bounds_maps = []\n            errors = []\n            for val in my_vals:\n                can_assign = val.can_assign(other, ctx)\n                # Ignore any branches that don't match\n                if isinstance(can_assign, CanAssignError):\n                    errors.append(can_assign)\n                else:\n                    bounds_maps.append(can_assign)\n            if not bounds_maps:\n                return CanAssignError(\"Cannot assign to Union\", errors)\n            return intersect_bounds_maps(bounds_maps)", "            maps = []\n            errors = []\n            for val in my_vals:\n                can_assign = val.can_assign(other, ctx)\n                # Ignore any branches that don't match\n                if isinstance(can_assign, CanAssignError):\n                    errors.append(can_assign)\n                else:\n                    maps.append(can_assign)\n            if not maps:\n                return CanAssignError(\"Cannot assign to Union\", errors)\n            return intersect_bounds_maps(maps)", "NOALARM"),
-        E("C15", "noalarm-rename-solution", "typevar.py", "        solution = bottom\n\n    if options is not None:\n        can_assigns = [option.can_assign(solution, ctx) for option in options]", "        solution = bottom\n\n    if options is not None:\n        checks = [option.can_assign(solution, ctx) for option in options]\n        can_assigns = checks", "NOALARM"),
+        E("C15", "noalarm-rename-solution", "typevar.py", "        can_assigns = [option.can_assign(solution, ctx) for option in options]\n", "        checks = [option.can_assign(solution, ctx) for option in options]\n        can_assigns = checks\n", "NOALARM"),
         E("C06", "noalarm-rename-had_error", "signature.py", "            if tv_map is None:\n                had_error = True", "            if tv_map is None:\n                had_error = True  # remember the failure", "KEEP"),
         E("C08", "keep-sigs-filter-loop", "signature.py", "        sigs = [\n            sig\n            for sig, bound_args in zip(self.signatures, bound_args_per_overload)\n            if bound_args is not None\n        ]", "        sigs = [\n            sig\n            for sig, bound in zip(self.signatures, bound_args_per_overload)\n            if bound is not None\n        ]", "KEEP"),
         E("C13", "keep-reorder-form-arms", "annotations.py", "    elif is_typing_name(root, \"Final\"):\n        if len(members) != 1:\n            ctx.show_error(\"Final requires a single argument\")\n            return AnyValue(AnySource.error)\n        # TODO(#160): properly support Final\n        return _type_from_value(members[0], ctx)\n    elif is_typing_name(root, \"ClassVar\"):\n        if len(members) != 1:\n            ctx.show_error(\"ClassVar requires a single argument\")\n            return AnyValue(AnySource.error)\n        return _type_from_value(members[0], ctx)", "    elif is_typing_name(root, \"ClassVar\"):\n        if len(members) != 1:\n            ctx.show_error(\"ClassVar requires a single argument\")\n            return AnyValue(AnySource.error)\n        return _type_from_value(members[0], ctx)\n    elif is_typing_name(root, \"Final\"):\n        if len(members) != 1:\n            ctx.show_error(\"Final requires a single argument\")\n            return AnyValue(AnySource.error)\n        # TODO(#160): properly support Final\n        return _type_from_value(members[0], ctx)", "KEEP"),
